@@ -377,3 +377,165 @@ def run_load(eng, w):
     except PyRaise as e:
         return "raises", (e.exc.cls.name if isinstance(e.exc, VObj) else "?"), e.exc
     return "returns", m, None
+
+
+# ------------------------------------------------------------------------------------------------ save_model (whole function)
+class NpMat(Ext):
+    """np.zeros(shape, dtype=int): a matrix of dependency codes"""
+
+    def __init__(self, shape):
+        self.shape, self.cells = tuple(shape), {}
+
+    def sym_getattr(self, eng, name):
+        if name == "shape":
+            return self.shape
+        raise Unsupported("ndarray.%s" % name)
+
+    def sym_getitem(self, eng, key):
+        return self.cells.get(tuple(key), 0)
+
+    def sym_setitem(self, eng, key, value):
+        self.cells[tuple(key)] = value
+
+
+class SaveFile(Ext):
+    def __init__(self, rec, path, mode):
+        self.rec, self.path, self.mode = rec, path, mode
+
+    def sym_getattr(self, eng, name):
+        if name == "__enter__":
+            return stub(lambda eng: self)
+        if name == "__exit__":
+            def ex(eng, *a):
+                self.rec["closed"].append(self.path)
+                return False
+            return stub(ex)
+        raise Unsupported("file.%s" % name)
+
+
+def run_save(eng, w, model, options, pre_existing=None, codegen_libs=None):
+    """Execute the real save_model against a recording file system.  pre_existing: dict path label -> z3 Bool (the file may be there
+    already: left by an interrupted earlier save or being written by another process).  Returns the record
+    {opened: [(path, mode)], dumps: [(db, file)], replaced: [(src, dst)], removed: [...], raised: exception name or None}."""
+    rec = {"opened": [], "dumps": [], "replaced": [], "removed": [], "closed": [], "raised": None, "codegen": []}
+    pre = pre_existing if pre_existing is not None else {}
+    exists = dict(pre)
+
+    def present(label):
+        if label not in exists:
+            exists[label] = eng.fresh_bool("exists_" + label.replace("/", "_"))
+        return exists[label]
+
+    def open_(eng, p, mode="r", **kw):
+        label = p.label if isinstance(p, PathStr) else str(p)
+        rec["opened"].append((label, mode))
+        if "x" in mode:
+            if eng.branch(present(label)):
+                raise PyRaise(make_exc("FileExistsError", label))
+        elif "r" in mode and "+" not in mode:
+            if not eng.branch(present(label)):
+                raise PyRaise(make_exc("FileNotFoundError", label))
+        exists[label] = z3.BoolVal(True)
+        return SaveFile(rec, label, mode)
+    eng.builtins["open"] = stub(open_)
+    os_mod = eng.ext_modules["os"]
+
+    def replace(eng, a, b):
+        la, lb = (a.label if isinstance(a, PathStr) else str(a)), (b.label if isinstance(b, PathStr) else str(b))
+        if not eng.branch(present(la)):
+            raise PyRaise(make_exc("FileNotFoundError", la))
+        rec["replaced"].append((la, lb))
+        exists[la], exists[lb] = z3.BoolVal(False), z3.BoolVal(True)
+
+    def remove(eng, a):
+        la = a.label if isinstance(a, PathStr) else str(a)
+        if not eng.branch(present(la)):
+            raise PyRaise(make_exc("FileNotFoundError", la))
+        rec["removed"].append(la)
+        exists[la] = z3.BoolVal(False)
+    os_mod.attrs["replace"] = stub(replace)
+    os_mod.attrs["rename"] = stub(replace)
+    os_mod.attrs["remove"] = stub(remove)
+    os_mod.attrs["unlink"] = stub(remove)
+    os_mod.attrs["path"].attrs["exists"] = stub(lambda eng, a: present(a.label if isinstance(a, PathStr) else str(a)))
+    pickle = eng.ext_modules["pickle"]
+
+    def dump(eng, db, f, *a, **k):
+        rec["dumps"].append((db, f))
+    pickle.attrs["dump"] = stub(dump)
+    numpy = eng.ext_modules["numpy"]
+    numpy.attrs["zeros"] = stub(lambda eng, shape, dtype=None: NpMat(shape))
+
+    def prod(eng, shape):
+        out = 1
+        for x in shape:
+            out = out * x
+        return out
+    numpy.attrs["prod"] = stub(prod)
+    casadi = eng.ext_modules["casadi"]
+    casadi.attrs["depends_on"] = stub(lambda eng, a, pv: bool(getattr(a, "depends_on_parameters", False)))
+    casadi.attrs["symvar"] = stub(lambda eng, e: VList(list(getattr(e, "symvars", []))))
+
+    def codegen(eng, args, kwargs):
+        rec["codegen"].append(args[2])
+        return "lib:" + str(args[2])
+    eng.call_contracts["_codegen_model"] = codegen
+    eng.call_contracts["_merge_default_options"] = lambda eng, args, kwargs: options
+    f = eng.find_function(MOD, "save_model")
+    try:
+        eng.call(f, [PathStr("MODEL"), "M", model, options], {})
+    except PyRaise as e:
+        rec["raised"] = e.exc.cls.name if isinstance(e.exc, VObj) else "?"
+    rec["exists_after"] = exists
+    return rec
+
+
+class AttrMX(MXStub):
+    """an MX-valued attribute"""
+
+    def __init__(self, label, constant=False, depends=False):
+        MXStub.__init__(self, label)
+        self.constant, self.depends_on_parameters = constant, depends
+
+    def sym_getattr(self, eng, name):
+        if name == "is_constant":
+            return stub(lambda eng: self.constant)
+        return MXStub.sym_getattr(self, eng, name)
+
+
+def make_model(eng, shapes, mx_attr=None):
+    """a Model with real Variable objects (real __init__ / to_dict); mx_attr: (category, index, attribute, kind) of one MX attribute"""
+    install_variable_class(eng)
+    mm = eng.load_module("pymoca.backends.casadi.model")
+    vcls = eng.module_global(mm, "Variable")
+    eng.find_function("pymoca.backends.casadi.model", "Variable.to_dict")
+    model = VObj(VClass("Model"), {})
+    objs = {}
+    for key in CATEGORIES + ["der_states"]:
+        lst = []
+        for i in range(shapes.get(key, 0)):
+            n1, n2 = eng.fresh_int("n1"), eng.fresh_int("n2")
+            eng.assume(z3.And(n1 >= 1, n2 >= 1))
+            v = eng.call(vcls, [MXStub("%s_%d" % (key, i), (n1, n2), origin=("sym",)), VClass("float"), Marker("aliases_%s_%d" % (key, i))], {})
+            for a in ATTRS:
+                v.fields[a] = Marker("%s_%d.%s" % (key, i, a))
+            lst.append(v)
+        objs[key] = lst
+        model.fields[key] = VList(lst)
+    if mx_attr is not None:
+        key, i, a, kind = mx_attr
+        objs[key][i].fields[a] = AttrMX("%s_%d.%s" % (key, i, a), constant=(kind == "constant"), depends=(kind == "dependent"))
+    for o in ["dae_residual", "initial_residual", "variable_metadata", "delay_arguments"]:
+        model.fields[o + "_function"] = FunctionStub("fresh:" + o, CATEGORIES if o == "variable_metadata" else None)
+    for k in ("string_constants", "string_parameters", "outputs", "alias_relation"):
+        model.fields[k] = Marker("model." + k)
+    model.fields["delay_states"] = VList([])
+    model.fields["delay_arguments"] = VList([])
+    model.fields["time"] = MXStub("time")
+    return model, objs
+
+
+def install_variable_class(eng):
+    model_mod = eng.load_module("pymoca.backends.casadi.model")
+    dv = eng.module_global(model_mod, "_DefaultValue")
+    dv.constructor = lambda eng, c, a, k: VObj(c, {"value": a[0] if a else 0})
